@@ -45,7 +45,7 @@ def run(ctx):
     q = ctx.quick; s = ctx.seed; jobs = []
     ctab = core.tlc_ok(core.tlc("ContribTable", "ContribTable.cfg", timeout=300), "ContribTable (OpenTheorem)"); ctx.add_tlc(ctab)
     for k in range(14 if q else 32):
-        jobs.append({"variant": "plain" if k % 2 == 0 else "hi", "args": {"seed": s * 1000 + k, "n": 8 if q else 40, "R": [32, 48, 64][k % 3]}, "out": ctx.path("open_%02d.ndjson" % k)})
+        jobs.append({"variant": "plain" if k % 2 == 0 else "hi", "args": {"seed": s * 1000 + k, "n": 20 if q else 120, "R": [32, 48, 64][k % 3]}, "out": ctx.path("open_%02d.ndjson" % k)})
     run_jobs(jobs)
     res = core.validate_traces("OpenTrace", "OpenTrace.cfg", [j["out"] for j in jobs], timeout=2400)
     harvest(ctx, jobs, res)
